@@ -491,6 +491,60 @@ pub fn run(r: &Report) {
             }
         }
     });
+    // alternative entry points must give the digest of the general function's reference:
+    // taproot_key_spend_signature_hash, taproot_script_spend_signature_hash with a ScriptPath (every leaf version
+    // of the menu) and with a TapLeafHash
+    let alt: Vec<&SigCase> = cases.iter().step_by(if thorough { 11 } else { 41 }).collect();
+    alt.par_iter().for_each(|c| {
+        let lib_tx = to_tx(&c.tx);
+        let lib_spent: Vec<TxOut> = c.spent.iter().map(to_txout).collect();
+        let g = BlockHash::from_byte_array(genesis());
+        for idx in 0..c.tx.ins.len() {
+            for &ty in &SCHNORR_TYPES {
+                let sty = SchnorrSighashType::from_u8(ty).unwrap();
+                r.trans(1);
+                let exp_key = ref_answer(&c.tx, &c.spent, &Query::Taproot { idx, ty, annex: 0, leaf: 0, prev: PrevMode::All });
+                let got = guard(|| SighashCache::new(&lib_tx).taproot_key_spend_signature_hash(idx, &Prevouts::All(&lib_spent), sty, g).map(|h| h.to_byte_array()).map_err(|e| err_kind(&e)));
+                let got = match got { Ok(Ok(d)) => Answer::Digest(d), Ok(Err(e)) => Answer::Err(e), Err(p) => Answer::Panic(p) };
+                if Some(&got) != exp_key.as_ref() {
+                    r.violation(format!("entry-point/taproot_key_spend_signature_hash/{:02x}", ty), json!({"tx": hex(&c.tx.enc_full()), "idx": idx, "ty": ty}), format!("{:?} vs reference {:?}", got, exp_key));
+                }
+                for (script, ver) in [(vec![0x51u8], 0xc4u8), (vec![0x51], 0xc0), (vec![0x52, 0x53], 0xc2), (gen::blob(300, 1), 0xfe), (vec![], 0x66)] {
+                    r.trans(2);
+                    let lh = crate::props::c15::leaf_hash(&script, ver);
+                    let exp = match os::taproot_preimage(&c.tx, idx, &c.spent, None, Some((&lh, 0xffff_ffff)), ty, &genesis()) {
+                        Ok(m) => Answer::Digest(os::taproot_digest(&m)),
+                        Err(os::TapErr::SingleWithoutCorrespondingOutput) => Answer::Err("SingleWithoutCorrespondingOutput".into()),
+                        Err(_) => continue,
+                    };
+                    let sc = Script::from(script.clone());
+                    let lv = elements::taproot::LeafVersion::from_u8(ver).unwrap();
+                    let via_path = guard(|| {
+                        SighashCache::new(&lib_tx)
+                            .taproot_script_spend_signature_hash(idx, &Prevouts::All(&lib_spent), elements::sighash::ScriptPath::new(&sc, 0xffff_ffff, lv), sty, g)
+                            .map(|h| h.to_byte_array())
+                            .map_err(|e| err_kind(&e))
+                    });
+                    let via_hash = guard(|| {
+                        SighashCache::new(&lib_tx)
+                            .taproot_script_spend_signature_hash(idx, &Prevouts::All(&lib_spent), TapLeafHash::from_script(&sc, lv), sty, g)
+                            .map(|h| h.to_byte_array())
+                            .map_err(|e| err_kind(&e))
+                    });
+                    for (name, got) in [("ScriptPath", via_path), ("TapLeafHash", via_hash)] {
+                        let got = match got { Ok(Ok(d)) => Answer::Digest(d), Ok(Err(e)) => Answer::Err(e), Err(p) => Answer::Panic(p) };
+                        if got != exp {
+                            r.violation(format!("entry-point/taproot_script_spend_signature_hash({})/leaf-version-{:02x}", name, ver), json!({"tx": hex(&c.tx.enc_full()), "idx": idx, "ty": ty, "leaf_version": ver}), format!("{:?} vs reference {:?}", got, exp));
+                        }
+                    }
+                    let conv: TapLeafHash = elements::sighash::ScriptPath::new(&sc, 7, lv).into();
+                    if conv.to_byte_array() != lh {
+                        r.violation(format!("entry-point/TapLeafHash-from-ScriptPath/leaf-version-{:02x}", ver), json!({"leaf_version": ver}), "conversion differs from the reference leaf hash");
+                    }
+                }
+            }
+        }
+    });
     // ScriptPath::leaf_hash against the reference leaf hash
     for k in 1..=5 {
         let (s, v, pos) = leaf_menu(k).unwrap();
